@@ -10,7 +10,7 @@ from vlib import core, prog, physics
 ASSUME = [
     "one case in five gives the step size through StepsPerRevolution (non-integer number of steps per synchrotron period, StepsPerTs left at an unrelated value): a = 2 pi / (steps per period the options imply)",
     "decided only for stationary, below-threshold states: stationarity gate = the last five recorded profiles (one per synchrotron period), each normalised to unit sum, agree to 5e-4 of the peak (runs last 20 damping times); otherwise the case is inconclusive, not a verdict",
-    "R(q) = ln rho(q) + q^2/2 - (1/a) * integral W_E dq with a = 2 pi/steps, W_E = stored wake (cells per step) * energy cell size, trapezoid rule on /Info/AxisValues_z; range of R over |q| <= 2 must be <= 5% of the range of the wake term + 0.01 + 4*c*delta^2 (discretisation error of the grid's own equilibrium width, c as in C04)",
+    "R(q) = ln rho(q) + q^2/2 - (1/a) * integral W_E dq with a = 2 pi/steps, W_E = stored wake (cells per step) * energy cell size, trapezoid rule on /Info/AxisValues_z; range of R over |q| <= 2 must be <= 1.5*a*(range of the wake term) [kick-drift splitting error] + 0.003 + delta^2 (2*delta^2 unless 4-point interpolation and 4-point derivative) [width error eps*q^2 of the grid's own equilibrium]",
     "sign convention derived from the maps: drift moves charge by -a*p, RF kick by +tan(a)*q, wake kick by -W cells",
     "energy spread of the stationary state within 0.8*delta^2 + 1e-3 of 1",
     "the bunch current is chosen by a pilot run so that the wake term over the core lies between 0.05 and about 1",
@@ -144,7 +144,11 @@ def run_case(args):
             return out
         # a width error eps of the grid's own equilibrium shows up as eps*q^2, i.e. 4*eps over |q| <= 2
         order, deriv = oo.get("InterpolationPoints", 4), oo.get("derivation", 4)
-        tol = 0.05 * A["rangeT"] + 0.01 + 4 * (0.25 if (order == 4 and deriv == 4) else 0.8) * Pc["delta"] ** 2
+        # splitting error of the kick-drift step (1.5*a of the wake term), width error of the grid's own equilibrium (eps*q^2 over |q|<=2: delta^2 for
+        # the 4-point interpolation with the 4-point derivative, 2*delta^2 otherwise) and 0.003; calibrated on the unchanged tree (48 equilibria,
+        # seeds 1-4: worst residual 0.3 of this), about three times tighter than the first version (0.05*wake term + 0.01 + 1..3.2 delta^2)
+        a_step = 2 * math.pi / Pc["steps"]
+        tol = 1.5 * a_step * A["rangeT"] + 0.003 + (1.0 if (order == 4 and deriv == 4) else 2.0) * Pc["delta"] ** 2
         out["res"]["haissinski_residual_over_tol." + kind] = A["rangeR"] / tol
         out["judged"] = 1
         if A["rangeR"] > tol:
